@@ -10,7 +10,7 @@ PROP = 'C10'
 T = fbparse.T
 OPS = [('FULLY_CONNECTED', 'bias'), ('TANH', ''), ('ADD', 'tc'),
        ('RESHAPE', 'same'), ('SPLIT', 'last'), ('CONV_2D', '1x1'),
-       ('CONCATENATION', 'ax0')]
+       ('CONCATENATION', 'ax0'), ('GELU', '')]
 MISSING = (r'not found in tensor_name_to_qsv', r'min and max must be provided',
            r'QSVs\) are required')
 
